@@ -26,6 +26,13 @@ CORPUS = [
         '<svg xmlns="http://www.w3.org/2000/svg" viewBox="0 0 100 100"><path d="M50,10 L90,90 L10,90 Z" fill="blue"/></svg>',
         '<svg xmlns="http://www.w3.org/2000/svg" viewBox="0 0 100 100"><path d="M10,50 L50,10 L90,50 L50,95 Z" fill="#00ff00"/></svg>',
     ], [(0x1F600,), (0x42,), (0x2A, 0xFE0F)]),
+    # two glyphs sharing an outline where the glyph given first sorts later by glyph name (g_1f600 > e000), plus
+    # one that shares nothing: the shared path belongs in <defs>, no glyph may reference into another
+    ("shared-shape-name-order", ["picosvg", "picosvgz"], [
+        '<svg xmlns="http://www.w3.org/2000/svg" viewBox="0 0 100 100"><path d="M10,10 L60,10 L60,60 L10,60 Z" fill="red"/></svg>',
+        '<svg xmlns="http://www.w3.org/2000/svg" viewBox="0 0 100 100"><path d="M30,30 L80,30 L80,80 L30,80 Z" fill="blue"/><path d="M5,5 L25,5 L15,25 Z" fill="#00ff00"/></svg>',
+        '<svg xmlns="http://www.w3.org/2000/svg" viewBox="0 0 100 100"><path d="M10,50 L50,10 L90,50 L50,95 Z" fill="#123456"/></svg>',
+    ], [(0x1F600,), (0xE000,), (0x1F601,)]),
 ]
 
 
@@ -98,11 +105,13 @@ def run_maximum_color(report, n, rng):
         sub = random.Random(rng.getrandbits(48))
         kind = kinds[i % len(kinds)]
         flags = (["--colr_version", str(sub.choice([0, 1]))] if kind.endswith("svg") and sub.random() < 0.5 else []) + (["--keep_glyph_names"] if sub.random() < 0.5 else [])
+        if i % 2 == 1:
+            flags = [f for f in flags if f != "--keep_glyph_names"] + ["--bitmaps"]  # bitmaps without names: post must be 3
         plans.append((i, kind, sub, flags))
 
     def work(plan):
         i, kind, sub, flags = plan
-        data, info = c12.nanoemoji_font(sub, kind, v0_expressible="0" in flags)
+        data, info = c12.nanoemoji_font(sub, kind, v0_expressible="0" in flags, bitmaps="--bitmaps" in flags)
         rc, log, out = c12.run_maximum_color(data, flags)
         return plan, info, rc, log, out
 
@@ -112,6 +121,9 @@ def run_maximum_color(report, n, rng):
     for (i, kind, sub, flags), info, rc, log, out in results:
         case = dict(kind="e2e", tool="maximum_color", input=kind, flags=flags, **info)
         report.hist("maximum_color.input", kind)
+        if rc != 0 and "--bitmaps" in flags and ("Bitmap is too big for CBDT" in log or "does not fit in format b for" in log):
+            report.hist("maximum_color.outcome", "rejected: CBDT format limit")
+            continue
         if rc != 0 or out is None:
             case.update(problems=["maximum_color failed"], log=log[-1500:])
             report_failure(report, f"maxcolor_{i}", case)
